@@ -72,12 +72,13 @@ def record (s : State) : Event → State
 
 /-- one call of `iterate` with a non-empty forward result -/
 def step (s : State) (ev : Event) : State :=
+  let triedBefore := s.tried
   let s := record s ev
   -- learning-period width update
   let s := if learning s && s.learnWin.length ≥ s.window then
       { s with adaptCalls := s.adaptCalls + 1, learnWin := [] } else s
-  -- first chain sample
-  if !learning s && s.tried == 0 then
+  -- first chain iteration (one or several proposals tried): its final state is held once more
+  if !learning s && decide (triedBefore < 0) && decide (0 ≤ s.tried) then
     let w := s.learnWin.drop (s.learnWin.length - s.window)
     let s := if 4 * w.length > 3 * s.window then { s with learnWin := w, adaptCalls := s.adaptCalls + 1 } else s
     addNew s s.cur
